@@ -74,6 +74,9 @@ var specs = []fieldSpec{
 	{"[]float64", pgen.F(sc(pgen.Float64), pgen.Slice), []tmpl{{"[1.5,0,2]", val([]float64{1.5, 0, 2})}}, nil},
 	{"map[int32]string", pgen.MapF(pgen.Int32, sc(pgen.String)), []tmpl{{`{"5":"five"}`, val(map[int32]string{5: "five"})}, {`{"-1":"m","0":"z"}`, val(map[int32]string{-1: "m", 0: "z"})}}, nil},
 	{"map[uint64]int32", pgen.MapF(pgen.Uint64, sc(pgen.Int32)), []tmpl{{`{"18446744073709551615":1}`, val(map[uint64]int32{math.MaxUint64: 1})}}, nil},
+	{"map[sint32]sfixed32", pgen.Field{Elem: enc(pgen.Int32, "fixed32"), Wrap: pgen.MapVal, Key: pgen.Int32, KeyEnc: "zigzag32"}, []tmpl{{`{"3":7}`, val(map[int32]int32{3: 7})}, {`{"-2":-5}`, val(map[int32]int32{-2: -5})}}, nil},
+	{"map[sint64]bool", pgen.Field{Elem: sc(pgen.Bool), Wrap: pgen.MapVal, Key: pgen.Int64, KeyEnc: "zigzag64"}, []tmpl{{`{"3":true}`, val(map[int64]bool{3: true})}}, nil},
+	{"map[fixed64]sint64", pgen.Field{Elem: enc(pgen.Int64, "zigzag64"), Wrap: pgen.MapVal, Key: pgen.Uint64, KeyEnc: "fixed64"}, []tmpl{{`{"9":-1}`, val(map[uint64]int64{9: -1})}}, nil},
 	{"map[bool]string", pgen.MapF(pgen.Bool, sc(pgen.String)), []tmpl{{`{"true":"t"}`, val(map[bool]string{true: "t"})}}, nil},
 	// elements of a repeated message template mention every sub-field: what a partial element inherits is not specified
 	{"[]nested", pgen.F(inner, pgen.Slice), []tmpl{{`[{"F0":1,"F1":"x"},{"F0":2,"F1":"y"}]`, nil}, {`[{"F0":3,"F1":"z"}]`, nil}}, nil},
